@@ -345,15 +345,20 @@ Proof.
   apply insert_schema_rows_inv. exact H.
 Qed.
 
-Lemma st_create_table_inv s name fds : SInv s -> SInv (fst (st_create_table s name fds)).
+Lemma st_create_table0_inv s name fds : SInv s -> SInv (fst (st_create_table0 s name fds)).
 Proof.
-  intros H. unfold st_create_table.
+  intros H. unfold st_create_table0.
   destruct (rel_offset s name) as [o|e|]; cbn [fst]; try exact H.
   destruct e; cbn [fst]; try exact H.
   pose proof (create_page_inv s H) as H1. destruct (create_page s) as [s1 pg]. cbn [fst] in H1.
   pose proof (insert_page_table_inv s1 pg name H1) as H2.
   destruct (insert_page_table s1 pg name) as [s2 [u|e|]]; cbn [fst] in *; try exact H2.
   apply insert_schema_table_inv. exact H2.
+Qed.
+
+Lemma st_create_table_inv s name fds : SInv s -> SInv (fst (st_create_table s name fds)).
+Proof.
+  intros H. unfold st_create_table. destruct (names_distinct _); [apply st_create_table0_inv; exact H | exact H].
 Qed.
 
 Lemma insert_rows_inv rows : forall s name cols batch n,
